@@ -142,10 +142,13 @@ fn judge(obs: String, resp: Option<Response>, expect: &str) -> (String, String) 
             "own" => {
                 let want: u16 = t[2].parse().unwrap();
                 match side {
-                    None => fails.push(format!("C02:own_response_not_recognised:{}", obs.split('/').next().unwrap_or(""))),
+                    None => {
+                        fails.push(format!("C02:own_response_not_recognised:{}", obs.split('/').next().unwrap_or("")));
+                        fails.push("C01:a_genuine_response_is_not_decoded_the_probe_would_be_reported_awaited".to_string());
+                    }
                     Some((acc, seq, _)) => {
-                        if !acc { fails.push("C02:own_response_rejected".to_string()); }
-                        if seq != want { fails.push(format!("C02:sequence_{seq}_expected_{want}")); }
+                        if !acc { fails.push("C02:own_response_rejected".to_string()); fails.push("C01:a_genuine_response_is_rejected_the_probe_would_be_reported_awaited".to_string()); }
+                        if seq != want { fails.push(format!("C02:sequence_{seq}_expected_{want}")); fails.push(format!("C01:a_genuine_response_is_matched_to_sequence_{seq}_instead_of_{want}")); }
                     }
                 }
             }
